@@ -18,7 +18,7 @@ import Wbxml.Lemmas.RtSecond
 import Wbxml.Lemmas.RtData
 import Wbxml.Lemmas.XmlNs
 namespace Wbxml.Lemmas.Rt
-open Wbxml Wbxml.Model Wbxml.Spec Wbxml.Lemmas.EncW Wbxml.Lemmas.X2W Wbxml.Lemmas.XmlNs
+open Wbxml Wbxml.Model Wbxml.Spec Wbxml.Lemmas.EncW Wbxml.Lemmas.X2W Wbxml.Lemmas.XmlNs Wbxml.Model.Flow
 
 /-! ### What a namespace-aware reader reports for the printer's output (languages with a namespace table) -/
 
@@ -855,5 +855,78 @@ theorem isElt_readX (xc : XCfg) (n : Node) (h : isElt n = true) : isElt (readX x
   | text s => cases h
   | cdata k => cases h
   | tree l cs r => cases h
+
+/-! ### The printed text does not depend on surplus fuel or the recorded charset -/
+
+/-- A successful run of the printer is not changed by more fuel. -/
+theorem xml_ok_mono : ∀ (f : Nat),
+    (∀ (c : XCfg) (p : Parent) (n : Node) (st r : XSt), xmlNode c p f n st = .ok r → xmlNode c p (f + 1) n st = .ok r) ∧
+    (∀ (c : XCfg) (p : Parent) (ns : List Node) (st r : XSt), xmlNodes c p f ns st = .ok r → xmlNodes c p (f + 1) ns st = .ok r)
+  | 0 => ⟨fun c p n st r h => (by rw [xmlNode_zero] at h; cases h), fun c p ns st r h => (by rw [xmlNodes_zero] at h; cases h)⟩
+  | f + 1 => by
+    obtain ⟨ihN, ihL⟩ := xml_ok_mono f
+    constructor
+    · intro c p n st r h
+      cases n with
+      | elt name attrs kids =>
+        rw [xmlNode_elt] at h ⊢
+        cases hk : xmlNodes c (childScope p name) f kids (xmlOpen c p name attrs kids st) with
+        | error e => rw [hk] at h; cases h
+        | ok st1 => rw [hk] at h; rw [ihL _ _ _ _ _ hk]; exact h
+      | text s => rw [xmlNode_text] at h ⊢; exact h
+      | cdata kids =>
+        rw [xmlNode_cdata] at h ⊢
+        cases hk : xmlNodes c p f kids { st with inCdata := true, out := st.out ++ b!"<![CDATA[" } with
+        | error e => rw [hk] at h; cases h
+        | ok st1 => rw [hk] at h; rw [ihL _ _ _ _ _ hk]; exact h
+      | tree l cs rt =>
+        cases l with
+        | none => rw [xmlNode_tree_none] at h; cases h
+        | some l =>
+          cases rt with
+          | none => rw [xmlNode_tree_noroot] at h; cases h
+          | some r0 =>
+            rw [xmlNode_tree] at h ⊢
+            cases hk : xmlNode { c with lang := l } .none f r0 { indent := st.indent } with
+            | error e => rw [hk] at h; cases h
+            | ok st1 => rw [hk] at h; rw [ihN _ _ _ _ _ hk]; exact h
+    · intro c p ns st r h
+      cases ns with
+      | nil => rw [xmlNodes_nil] at h ⊢; exact h
+      | cons n rest =>
+        rw [xmlNodes_cons] at h ⊢
+        cases hk : xmlNode c p f n st with
+        | error e => rw [hk] at h; cases h
+        | ok st1 => rw [hk] at h; rw [ihN _ _ _ _ _ hk]; exact ihL _ _ _ _ _ h
+
+theorem xmlNode_ok_add (c : XCfg) (p : Parent) (n : Node) (st r : XSt) (f : Nat) (h : xmlNode c p f n st = .ok r) :
+    ∀ k, xmlNode c p (f + k) n st = .ok r
+  | 0 => h
+  | k + 1 => (xml_ok_mono (f + k)).1 c p n st r (xmlNode_ok_add c p n st r f h k)
+
+/-- Two successful prints of trees with the same language and root give the same text, whatever
+    the fuel and the recorded original charset. -/
+theorem treeToXml_same (cfg : W2XCfg) (ta tb : Tree) (fa fb : Nat) (xa xb : Bytes) (hl : ta.lang = tb.lang)
+    (hr : ta.root = tb.root) (ha : treeToXml cfg fa ta = .ok xa) (hb : treeToXml cfg fb tb = .ok xb) : xa = xb := by
+  unfold treeToXml at ha hb
+  rw [hl, hr] at ha
+  cases hlg : tb.lang with
+  | none => rw [hlg] at hb; cases hb
+  | some lang =>
+    cases hrt : tb.root with
+    | none => rw [hlg, hrt] at hb; cases hb
+    | some root =>
+      rw [hlg, hrt] at ha hb
+      dsimp only at ha hb
+      obtain ⟨sa, h1, h2⟩ := EncW.bind_ok' ha
+      obtain ⟨sb, h3, h4⟩ := EncW.bind_ok' hb
+      have h2 := EncW.ok_inj h2
+      have h4 := EncW.ok_inj h4
+      have e1 := xmlNode_ok_add _ _ _ _ _ fa h1 fb
+      have e2 := xmlNode_ok_add _ _ _ _ _ fb h3 fa
+      rw [Nat.add_comm] at e2
+      rw [e1] at e2
+      injection e2 with e2
+      rw [← h2, ← h4, e2]
 
 end Wbxml.Lemmas.Rt
